@@ -278,7 +278,7 @@ fn run_one(cx: &mut Ctx, c: &Value, rng: &mut Rng) {
         Some("intvec") => {
             let strs: Vec<String> = c["values"].as_array().unwrap().iter().map(|x| x.as_str().unwrap().to_string()).collect();
             let ctor = c["ctor"].as_u64().unwrap_or(0) as usize;
-            macro_rules! go { ($t:ty) => {{ let v: Vec<$t> = strs.iter().map(|s| s.parse::<$t>().unwrap()).collect(); intvec::intvec_case::<$t>(cx, &v, "replay", &[ctor.min(2)], true, rng); }}; }
+            macro_rules! go { ($t:ty) => {{ let v: Vec<$t> = strs.iter().map(|s| s.parse::<$t>().unwrap()).collect(); intvec::intvec_case::<$t>(cx, &v, "replay", &[ctor.min(2)], 1, rng); }}; }
             match c["type"].as_str().unwrap_or("u32") {
                 "u8" => go!(u8), "u16" => go!(u16), "u32" => go!(u32), "u64" => go!(u64),
                 "i8" => go!(i8), "i16" => go!(i16), "i32" => go!(i32), _ => go!(i64),
@@ -303,7 +303,7 @@ pub fn run(args: &Args) {
         shards: CoqShards::new(HEADER, 100),
         budget: if th { 12000 } else { 1450 },
         model_sorted: MODEL_SORTED, n_sorted_coq: 0, cap_sorted_coq: if th { 4000 } else { 450 },
-        model_intvec: MODEL_INTVEC, n_intvec_coq: 0, cap_intvec_coq: if th { 4000 } else { 450 },
+        model_intvec: MODEL_INTVEC, n_intvec_coq: 0, cap_intvec_coq: if th { 4000 } else { 300 },
         model_zip: MODEL_ZIP, n_zip_coq: 0, cap_zip_coq: if th { 2000 } else { 200 },
         n_min0_coq: 0, cap_min0_coq: if th { 3000 } else { 350 },
     };
@@ -333,6 +333,9 @@ pub fn run(args: &Args) {
     intvec::enum_small::<u16>(&mut cx, &mut rng); intvec::enum_small::<i16>(&mut cx, &mut rng);
     intvec::enum_small::<u32>(&mut cx, &mut rng); intvec::enum_small::<i32>(&mut cx, &mut rng);
     intvec::enum_small::<u64>(&mut cx, &mut rng); intvec::enum_small::<i64>(&mut cx, &mut rng);
+    // the full analysis (more than 10000 elements), replayed in the model
+    match rng.below(4) { 0 => intvec::full_analysis_case::<u16>(&mut cx, &mut rng), 1 => intvec::full_analysis_case::<u32>(&mut cx, &mut rng),
+                         2 => intvec::full_analysis_case::<i32>(&mut cx, &mut rng), _ => intvec::full_analysis_case::<u64>(&mut cx, &mut rng) }
     let nh = if th { 30000 } else { 2000 };
     for i in 0..nh {
         let ops = gen_history(&mut rng);
@@ -385,5 +388,5 @@ pub fn run(args: &Args) {
 
 // which mechanism models exist on the Coq side (coq/C09/Cases.v must know the constructor)
 const MODEL_SORTED: bool = true;
-const MODEL_INTVEC: bool = false;
+const MODEL_INTVEC: bool = true;
 const MODEL_ZIP: bool = true;
